@@ -33,8 +33,13 @@ def worlds(tier: str, stats: Dict[str, Any], subset: Optional[str] = None) -> It
     else:
         progs = [(p, "ops") for p in gpusim.programs(3)] + [(p, "flat") for p in gpusim.programs(4, with_ops=False) if len(p) == 4]
         profiles = PROFILES_QUICK + PROFILES_MORE
+    evprogs = gpusim.event_programs(3 if tier == "quick" else 4)
     if subset == "small":
         progs = progs[::3]
+        evprogs = evprogs[::3]
+    elif subset == "smaller":
+        progs = progs[::6]
+        evprogs = evprogs[::4]
     for i, (p, kind) in enumerate(progs):
         for j, prof in enumerate(profiles):
             stats["transitions"] += 1
@@ -43,6 +48,11 @@ def worlds(tier: str, stats: Dict[str, Any], subset: Optional[str] = None) -> It
                 # Kineto does not write events in time order: same trace, device records last and in reverse order
                 stats["transitions"] += 1
                 yield dict(program=[list(a) for a in p], profile=prof, steps=False, flag=(i + j + 1) % 2, file_order="device-reversed")
+            if j == 0 and (i % 3 == 1):
+                # activity names whose shortened form is empty or a token that CSV readers take for "missing"
+                stats["transitions"] += 1
+                yield dict(program=[list(a) for a in p], profile=dict(prof, knames={"7": "<unnamed>", "9": "null"}), steps=False,
+                           flag=i % 2, names="na-tokens")
             if j == 0 and (i % 2 == 0):
                 # a second host thread holding a single leaf operator (a disconnected component of the graph)
                 for leaf in (200, 1):
@@ -51,6 +61,15 @@ def worlds(tier: str, stats: Dict[str, Any], subset: Optional[str] = None) -> It
             if kind == "ops" and len(p) <= 4 and j < 2:
                 stats["transitions"] += 1
                 yield dict(program=[list(a) for a in wrap_steps(p)], profile=prof, steps=True, flag=(i + j + 1) % 2)
+    # CUDA-event synchronisation programs (cudaEventRecord / cudaStreamWaitEvent / cudaEventSynchronize)
+    yield from _event_worlds(evprogs, profiles, stats)
+
+
+def _event_worlds(evprogs, profiles, stats):
+    for i, p in enumerate(evprogs):
+        for j, prof in enumerate(profiles[:2]):
+            stats["transitions"] += 1
+            yield dict(program=[list(a) for a in p], profile=prof, steps=False, flag=(i + j) % 2, events=True)
 
 
 def build(world) -> List[Dict[str, Any]]:
